@@ -12,7 +12,11 @@ multi-fault plans are drawn.  Monitors per faulted run:
     logical request, a retry only after a failure, and an abandoned request
     is followed by the "Giving up" log entry;
   * differential: every device receives exactly its baseline requests minus
-    the abandoned ones.
+    the abandoned ones;
+  * the fault-free baseline itself is compared with a run of the same script
+    from which every operand naming an unknown light/group/location or asking
+    a light for a capability it lacks has been deleted: every device other
+    than the mis-addressed one has identical traffic.
 Discovery: after a successful first discovery every request a second
 discovery makes is failed (k = 1..3, device silent); discover() must not
 raise, a False return must leave every directory getter unchanged, and a
@@ -81,18 +85,62 @@ STATEMENTS = [
     'repeat in group "G1" and "Z" as y begin set y end',
     'repeat in location "NoLoc" as y begin set y end',
     'repeat group as g begin off group g end',
+    'set "A" set "Nobody" set "Nobody"', 'on "Z" on "Nobody" on "Nobody"',
+    'set "B" set "Nobody" zone 1 set "Nobody" zone 1',
+    'set "M" set "Nobody" row 0 set "Nobody" row 0',
+    'set group "G2" set group "NoGroup" set group "NoGroup"',
+    'get "A" get "Nobody" get "Nobody" ' + COLOUR.format(80),
 ]
 
 
+# what remains of a statement when the operands that name nothing, or that ask
+# for a capability the light does not have, are deleted -> (remainder, lights
+# addressed with a capability they lack: the statement leaves open what these
+# receive, every other device is compared)
+STRIPPED = {
+    'set "Nobody"': ('', ()), 'on "Nobody"': ('', ()),
+    'on group "NoGroup"': ('', ()), 'off location "NoLoc"': ('', ()),
+    'set group "NoGroup"': ('', ()), 'set "Nobody" zone 1': ('', ()),
+    'set "Nobody" row 0': ('', ()),
+    'set "A" zone 1': ('', ('A',)), 'set "M" zone 0 1': ('', ('M',)),
+    'set "A" row 0': ('', ('A',)), 'set "Z" row 1 column 0': ('', ('Z',)),
+    'set "A" begin stage row 0 end': ('', ('A',)),
+    'set "A" and "Nobody" and "Z" zone 0 and "B"':
+        ('set "A" and "Z" zone 0 and "B"', ()),
+    'on "B" and group "NoGroup" and "M"': ('on "B" and "M"', ()),
+    'get "Nobody" ' + COLOUR.format(78): (COLOUR.format(78), ()),
+    'repeat in location "NoLoc" as y begin set y end': ('', ()),
+    'set "A" set "Nobody" set "Nobody"': ('set "A"', ()),
+    'on "Z" on "Nobody" on "Nobody"': ('on "Z"', ()),
+    'set "B" set "Nobody" zone 1 set "Nobody" zone 1': ('set "B"', ()),
+    'set "M" set "Nobody" row 0 set "Nobody" row 0': ('set "M"', ()),
+    'set group "G2" set group "NoGroup" set group "NoGroup"':
+        ('set group "G2"', ()),
+    'get "A" get "Nobody" get "Nobody" ' + COLOUR.format(80):
+        ('get "A" ' + COLOUR.format(80), ()),
+}
+assert all(k in STATEMENTS for k in STRIPPED)
+
+
 def build_script(rng):
-    stmts = rng.sample(STATEMENTS, rng.randint(12, len(STATEMENTS)))
-    out = [COLOUR.format(10)]
+    """returns (script, the same script without its no-op operands, lights
+    excluded from that comparison)"""
+    pool = STATEMENTS
+    if rng.random() < 0.5:      # no capability mismatches: all lights compared
+        pool = [s for s in STATEMENTS if not STRIPPED.get(s, ('', ()))[1]]
+    stmts = rng.sample(pool, rng.randint(12, len(pool)))
+    out, ref, exempt = [COLOUR.format(10)], [COLOUR.format(10)], set()
     for i, s in enumerate(stmts):
         out.append(s)
+        less, ex = STRIPPED.get(s, (s, ()))
+        ref.append(less)
+        exempt.update(ex)
         if rng.random() < 0.2:
             out.append('hue {}'.format(11 + i))
+            ref.append(out[-1])
     out.append('print 999')
-    return ' '.join(out)
+    ref.append('print 999')
+    return ' '.join(out), ' '.join(x for x in ref if x), exempt
 
 
 def dev_log(log):
@@ -236,11 +284,51 @@ def fault_plans(rng, base_requests, n_random):
                faulty)
 
 
+def per_device(requests):
+    out = {d['label']: [] for d in POP}
+    for e in requests:
+        out.setdefault(e[1], []).append(
+            (e[2], repr(e[3]) if e[2] != 'get_color' else '()'))
+    return out
+
+
+def compare_stripped(ctx, v, script, stripped, exempt, base_requests):
+    """operands that name nothing or ask for a missing capability change
+    nothing for any other device: same traffic as the script without them"""
+    env.configure(simnet.make_devices(POP))
+    simnet.set_plan(None)
+    ref = run_script(stripped)
+    replay = {'part': 'stripped', 'script': script, 'stripped': stripped,
+              'exempt': sorted(exempt)}
+    ctx.case('S:{}'.format(v), nontrivial=stripped != script)
+    if not ref.accepted or ref.stops:
+        ctx.violation('baseline-fails', 'stripped: {} {} | {}'.format(
+            ref.errors, ref.stops[:1], stripped[:300]), replay)
+        return
+    have = per_device(base_requests)
+    want = per_device([e for e in dev_log(ref.log) if e[4] == 'ok'])
+    for dev in sorted(want):
+        if dev in exempt:
+            ctx.count('stripped_devices_exempt')
+            continue
+        ctx.count('stripped_devices_compared')
+        if have[dev] != want[dev]:
+            k = next((i for i, (a, b) in enumerate(zip(have[dev], want[dev]))
+                      if a != b), min(len(have[dev]), len(want[dev])))
+            ctx.violation(
+                'unknown-or-mismatched-target:other-device-disturbed',
+                'device {} request #{}: {} with the unknown names / capability '
+                'mismatches in the script, {} without them | {}'.format(
+                    dev, k, have[dev][k:k + 1] or 'nothing',
+                    want[dev][k:k + 1] or 'nothing', script[:400]), replay)
+            return
+
+
 def part_scripts(ctx):
     nvar = VARIANTS[ctx.tier]
     for v in range(nvar):
         rng = ctx.rng('script', v)
-        script = build_script(rng)
+        script, stripped, exempt = build_script(rng)
         env.configure(simnet.make_devices(POP))
         simnet.set_plan(None)
         base = run_script(script)
@@ -249,6 +337,8 @@ def part_scripts(ctx):
                 base.errors, base.stops[:1], script[:300]), {'script': script})
             continue
         base_requests = [e for e in dev_log(base.log) if e[4] == 'ok']
+        if ctx.mine(v):
+            compare_stripped(ctx, v, script, stripped, exempt, base_requests)
         base_ok = {}
         for e in base_requests:
             base_ok.setdefault(e[1], []).append(
@@ -371,6 +461,7 @@ def finalize(merged):
     c = merged['counters']
     for need in ('plans_triggered', 'retries_succeeded',
                  'requests_abandoned_with_log_entry', 'discoveries_with_fault',
+                 'stripped_devices_compared',
                  'discoveries_reported_failure'):
         if not c.get(need) and not merged['violations']:
             merged['inconclusive'].append('monitor observed nothing: ' + need)
